@@ -10,6 +10,10 @@ CONSTANTS
   NotifyPop = TRUE
   ReleaseOnEnd = TRUE
   Faults = TRUE
+  StopAfterSend = TRUE
+  CleanupOnDisc = TRUE
+  MaxSendFail = 1
+  Family = "none"
   MaxOps = 5
   MaxCancel = 1
   Depth = 0
@@ -24,5 +28,7 @@ INVARIANT DisconnectAfterPreceding
 INVARIANT NoLostWake
 INVARIANT WaitersConsistent
 INVARIANT NothingLeftRunning
+INVARIANT AfterAppReturn
+INVARIANT AcceptedHasPump
 INVARIANT QuietIsRight
 PROPERTY XSenderLearnsPromptly
